@@ -12,6 +12,7 @@ import (
 
 	"github.com/juev/hledger-lsp/internal/ast"
 	"github.com/juev/hledger-lsp/internal/parser"
+	"github.com/juev/hledger-lsp/internal/verifhook"
 )
 
 const (
@@ -237,6 +238,7 @@ func (l *Loader) loadSingleInclude(
 		return errors
 	}
 
+	verifhook.At("loader.read", includePath)
 	subResult, subErrors := l.loadWithContent(includePath, string(incContent), visited)
 	errors = append(errors, subErrors...)
 
